@@ -4,12 +4,33 @@ import json, subprocess, os
 ALL = ["C%02d" % i for i in range(1, 21)]
 # property -> (technique, level text, level note, design ref)
 CHECKS = {
+ "C01": ("reference-model monitor over a real forwarding thread driven synchronously through hooks; every send recorded by fake faces is checked against a pending-Interest model",
+         "Per DATA step: sends only to faces holding a pending Interest the Data satisfies (token echo or name/CanBePrefix), exactly one byte-identical copy per surely-live pending Interest on faces other than the arrival face, with the token that face supplied; unknown 6-byte tokens reach nobody; the entry is consumed. Per cache answer: one Data, arrival face only, right token, satisfying name, last inserted bytes. ~600 histories (quick) / 24000 (thorough) of 25-60 steps, both strategies, cache on/off, both FIBs.",
+         "Forwarder tokens are learned from observed forwarded Interests; expiry-dependent expectations use measured times and a 20 ms guard band (inside it 0..1 copies accepted); hooks: fw/fw, fw/table verif_hooks.go.", "5/C01"),
+ "C02": ("reference-model monitor over a real forwarding thread: every Interest send recorded by fake faces is checked against an independent FIB/LPM + pending/dead-nonce/suppression model",
+         "Per INTEREST step: copies only to next hops of the LPM entry (name / first hint outside the producer region / NextHopFaceId), never back to the point-to-point arrival face, once per face, hop limit decremented in the emitted bytes; no forwarding for hop limit 0, missing nonce, nonce pending from another face, dead nonce, new nonce inside the suppression interval; the first Interest with a usable next hop must be forwarded (best-route: lowest-cost usable hop; multicast: all usable hops).",
+         "Must-record dead nonces: out-record nonces of entries satisfied by equal-name Data or expired unsatisfied; nonces the forwarder additionally lists as dead may be dropped; retransmissions after the suppression interval are left open; hooks as C01.", "5/C02"),
  "C03": ("runtime round-trip monitor: packet API output checked by an independent strict TLV walker and re-decoded under many segmentations",
          "Every generated (name, optional-field subset, payload split, signer) case is built by MakeData/MakeInterest, verified byte-level by an independent walker (exact lengths, shortest form, field bytes), and decoded contiguously and under 20-150 segmentations per packet; all decoded fields, the signed portion and the standalone Name/Component encoders are compared. ~10^4 (quick) to 10^5 (thorough) packets per run.",
          "Trusted: internal/tlvwalk and its container schema; Interest names without caller-invented ParametersSha256Digest components; nonce/hop-limit within their wire domain.", "5/C03"),
  "C04": ("sanitizing in sacrificial child processes: recover(), per-call heap-allocation meter, per-call watchdog, RLIMIT_AS, journal-attributed process death; structure-aware mutation of valid encodings",
          "Every decoder entry point discovered in the tree (all generated model parsers + packet/name readers, through the contiguous and the segmented reader) and the forwarder receive path (stream framing, NDNLP decode/reassembly/PIT-token dispatch with 1/2/8 threads) are fed ~4.5x10^5 (quick) to ~2.7x10^7 (thorough) hostile inputs; a panic, a process death, an allocation above 1 MiB + 256 x input, a call above 2 s / a 20 s hang, or a state change caused by an undecodable frame is a violation.",
          "Allocation measured through runtime/metrics; socket listeners are exercised through the functions their receive loops call; hooks: fw/face/verif_hooks.go.", "5/C04"),
+ "C05": ("differential + reference-model monitor: both FIB implementations driven by the same operation history, every lookup and listing compared with an independent LPM map after every operation",
+         "Histories of 25-55 insert/update/remove/clear/set/unset operations over nested and sibling prefixes (depth 0..6, names shorter/equal/longer than m, m in 1..6) run on the name-tree and hash-table FIB side by side; after every op all probe names are looked up on both (next hops as a set, strategy) and both listings are compared with the reference entries exactly.",
+         "Results deep-copied by the harness; the root strategy is never unset at table level (management enforces that: C17).", "5/C05"),
+ "C06": ("reference-model monitor: RIB operation histories against both FIBs, every lookup/listing compared after every operation with a from-scratch flattening of the harness's own route multiset",
+         "Histories of register / re-register / unregister / face-cleanup over nested prefixes with gaps, 5 faces, 4 origins, 4 costs, all flag combinations; after every op FindNextHops for every probe name, GetAllFIBEntries and Rib.GetAllEntries must equal the reference flattening (own routes + child-inherit routes of shorter prefixes up to and including the nearest capture prefix; nothing inherited by a capture prefix; minimum cost per face).",
+         "Flattening rule re-implemented from the statement; hooks: fw/table/verif_hooks.go (RIB reset between histories).", "5/C06"),
+ "C07": ("reference-model monitor on a real PIT-CS table: lookups and insertions checked against an LRU/freshness/capacity model, cached-name set read through a structural hook",
+         "Histories of inserts/refreshes (freshness absent/0/60 ms/1 h), exact and prefix lookups with both flags, capacity changes and sleeps; every lookup result is checked for name relation, bytes, freshness (outside a 15 ms guard band) and must-find; every insertion for size <= capacity, CsSize == walked entries, eviction count and LRU victim (interval model), cached set == model set.",
+         "Guard band for wall-clock freshness; CanBePrefix lookups may or may not count as use; hooks: fw/table/verif_hooks.go.", "5/C07"),
+ "C08": ("structural-invariant monitor at hooks after every step of forwarder/FIB/RIB histories + bounded-liveness check at quiescence by driving the reaper",
+         "After every step of short-lifetime forwarder histories a white-box walk must find every PIT entry queued for expiry, counters == entries == index sizes, no dead branch; at quiescence (reaper driven until stable) the PIT is empty, the tree is exactly the paths to live cache entries and dead nonces are gone; after every op of FIB and RIB histories (both FIBs) the node/table sizes must equal what the live entries require, also after full teardown.",
+         "Leak detection is structural (clock-independent); hooks: fw/table, fw/fw verif_hooks.go.", "5/C08"),
+ "C09": ("negative + positive monitor on recorded sends of a real forwarding thread: names parsed from the bytes sent on non-local faces, table snapshots around rejected packets",
+         "Forwarder histories with /localhost names in a third of traffic and routes (incl. default route and /localhost routes to non-local faces, cache hits, token-addressed Data, NextHopFaceId): no send on a non-local face may carry a /localhost name; a /localhost packet from a non-local face causes no send and no table change; local-to-local /localhost Interests with a local route must be forwarded and their Data delivered.",
+         "Names parsed from recorded bytes by the independent walker; hooks as C01.", "5/C09"),
  "C10": ("runtime monitor on a real sender/receiver NDNLP link-service pair over a recording in-memory transport; frames checked by an independent walker; recorded deliveries compared with what was sent",
          "Valid packets of exact sizes (minimum..8800, boundary sizes around k x payload and MTU - overhead) x MTU 128..8800 x options x token/mark combinations are sent; every frame must fit the MTU and be one LpPacket, a fitting packet must be one frame, no truncation with fragmentation off; frames of up to three concurrent messages are delivered in shuffled/reversed/rotated order with a duplicated fragment; each message must arrive exactly once, byte-identical, with its PIT token and congestion mark. ~10^4 (quick) / 4.8x10^5 (thorough) cases.",
          "Header budget W computed by the harness from NDNLPv2 field sizes; link-service congestion marking switched off in the harness config; hooks: fw/face/verif_hooks.go.", "5/C10"),
